@@ -205,6 +205,9 @@ def build_nodes(prog, rng, host):
             nodes.append({"AST_node_type": OPS[op]})
             r, l = stack.pop(), stack.pop()
             stack.append(l + [("op", op)] + r)
+        elif nd == "ws":
+            # the blanks the user typed are kept as nodes of their own; the library's text has none, the expression is unchanged
+            nodes.append({"AST_node_type": rng.choice(["PREPEND_WHITESPACE_NODE", "APPEND_WHITESPACE_NODE"]), "AST_whitespace": rng.choice([" ", "  ", "\n "])})
         elif nd == "neg":
             nodes.append({"AST_node_type": "NEGATION_NODE"})
             stack.append([("op", "neg")] + stack.pop())
@@ -390,6 +393,9 @@ def run(ctx):
             stream_to=handle, timeout=3000)
     ctx.tlc("FormulaStack", cfg(["n", "b", "d"], ["add", "mul", "cat"], 6 if q else 7, 3, ["call", "empty", "list", "arr", "neg"], emit=True),
             what="MC_FormulaStack[calls, lists, arrays, <=%d nodes]" % (6 if q else 7), stream_to=handle, timeout=6000)
+    ctx.tlc("FormulaStack", cfg(["n", "s"], ["add", "sub", "cat"], 6, 2, ["neg", "list", "call", "ws"], emit=True), what="MC_FormulaStack[whitespace nodes, <=6 nodes]",
+            stream_to=handle, timeout=3000)
+    ctx.tlc("FormulaStack", cfg(["n"], ["add", "sub"], 4, 1, ["neg", "ws"], bug="WhitespacePops"), what="Bug_WhitespacePops", expect_violation=True, count=False)
     if not q:
         ctx.tlc("FormulaStack", cfg(["n", "d"], ["eq", "add", "pow"], 7, 2, ["neg", "pct", "list", "call"], emit=True), what="MC_FormulaStack[deep, <=7 nodes]",
                 stream_to=handle, timeout=6000)
